@@ -15,12 +15,18 @@ func VerifConnCount(p *StreamPool) int {
 
 // VerifHalfPages returns, for every half connection in the pool, the number of queued
 // (out-of-order) pages, of saved pages, and the seen time (unix nanos) of its first
-// queued page (0 if none).
+// queued page (0 if none). A closed half reports 0/0/0: closeHalfConnection returns its
+// pages to the page cache without clearing half.first, so the list head of a closed half
+// is a stale pointer, not buffered data (nothing reads it again before reset).
 func VerifHalfPages(p *StreamPool) (queued, saved []int, firstSeen []int64) {
 	p.mu.RLock()
 	defer p.mu.RUnlock()
 	for _, c := range p.conns {
 		for _, h := range []*halfconnection{&c.c2s, &c.s2c} {
+			if h.closed {
+				queued, saved, firstSeen = append(queued, 0), append(saved, 0), append(firstSeen, 0)
+				continue
+			}
 			q, s := 0, 0
 			for pg := h.first; pg != nil; pg = pg.next {
 				q++
